@@ -171,7 +171,7 @@ func genC14(g *Gen) {
 			}
 		}
 	})
-	for _, sz := range []int{63, 64, 65, 255, 256, 257, 1000, 4097} {
+	for _, sz := range g.WithRandomSizes([]int{63, 64, 65, 255, 256, 257, 1000, 4097}, g.Pick(6, 40), 2, g.Pick(260, 5000)) {
 		if sz > g.Pick(260, 5000) {
 			continue
 		}
